@@ -39,6 +39,20 @@ class RecTransport:
         self.lost_delivered = False
         self.pending_lost: tuple[bool, BaseException | None] = (False, None)
         self.write_raises: BaseException | None = None
+        self.recent_objects: list[tuple[Any, bytes]] = []   # (object handed to write(), its content at that moment), newest last
+
+    def changed_after_write(self) -> list[int]:
+        """A real transport may keep the object it was given until the socket accepts it (the selector transport of 3.12 queues a memoryview
+        of it, without copying): its content must still be what it was when write() was called.  Returns how many writes ago it changed."""
+        out = []
+        for age, (obj, snap) in enumerate(reversed(self.recent_objects)):
+            try:
+                same = bytes(obj) == snap
+            except Exception:  # noqa: BLE001  (released memoryview etc.)
+                same = False
+            if not same:
+                out.append(age)
+        return out
 
     def write(self, data: Any) -> None:
         if not isinstance(data, (bytes, bytearray, memoryview)):
@@ -49,6 +63,9 @@ class RecTransport:
             self.writes_after_close.append(bytes(data))
             return
         self.writes.append(bytes(data))
+        self.recent_objects.append((data, self.writes[-1]))
+        if len(self.recent_objects) > 6:
+            del self.recent_objects[0]
 
     def close(self) -> None:
         self.close_calls += 1
